@@ -76,18 +76,24 @@ def r2(c, A):
             return "match"
         return s
     env = G.GuardEnv(rename=ren)
-    # (i) nothing skips rows
+    # (i) nothing skips rows: leaving an iteration early is fine only for a row that is dropped by design
+    #     (unmatched and not strict; or the negated form governed by cant_delete rules)
+    allowed = G.Or(G.And(G.Not(G.Atom("match")), G.Not(G.Atom("fatal_acl"))), G.And(G.Atom("match"), G.Atom("is_reverse"), G.Atom("all_cant_delete")))
     bad = []
     for n in walk_no_nested(A.fn):
-        if isinstance(n, (ast.Break, ast.Continue)) and A.loop in A.gm.in_loop(n):
+        if isinstance(n, ast.Break) and A.loop in A.gm.in_loop(n):
             bad.append(n)
+        if isinstance(n, ast.Continue) and A.loop in A.gm.in_loop(n):
+            f = A.gm.formula(n, env, skip_early=False)
+            if not G.implies(f, allowed):
+                bad.append(n)
         if isinstance(n, ast.Return) and n is not A.final:
             f = A.gm.formula(n, G.GuardEnv())
             # allowed: return under `not config` (nothing to examine)
             if not G.implies(f, G.Not(G.Atom("config"))):
                 bad.append(n)
     c.check("C06.R2", not bad, repo.loc(m, bad[0] if bad else A.loop), "apply_acl/every-row-examined",
-            f"`{norm(bad[0])[:60] if bad else ''}` under [{G.show(A.gm.formula(bad[0], G.GuardEnv())) if bad else ''}] lets rows leave the filter unexamined: "
+            f"`{norm(bad[0])[:60] if bad else ''}` under [{G.show(A.gm.formula(bad[0], env)) if bad else ''}] lets rows leave the filter unexamined: "
             "in strict mode an uncovered line would be dropped silently instead of raising", key_text="skip")
     # loop must be top-level unconditional
     f_loop = A.gm.formula(A.loop, G.GuardEnv())
